@@ -864,7 +864,11 @@ class NAryMatrixRelation(AbstractBaseRelation, SimpleRepr):
         if isinstance(rel_value, (float, np.floating)) and np.issubdtype(
             matrix.dtype, np.integer
         ):
-            matrix = matrix.astype(np.float64)
+            if matrix.size and np.abs(matrix).max() > 2 ** 53:
+                # float64 cannot represent these integers exactly
+                matrix = matrix.astype(object)
+            else:
+                matrix = matrix.astype(np.float64)
         return matrix
 
     @staticmethod
